@@ -79,6 +79,13 @@ theorem globals_protected :
     globalWrites.all (fun w => w.sync != "none" || acceptedUnguarded.contains (w.pkg, w.name)) = true := by
   decide
 
+/-- **No request leaves a process-wide lock behind.**  In core, sys, cron and service no function returns while a
+mutex it locked earlier is still locked without a deferred unlock pending (table regenerated from the source on every
+run) — a leaked lock on a shared object (the timer table, the location cache, the cron) would block the requests of
+every other location.  The one entry is by design: `CachedLocations.Open` hands the cache entry to its caller locked
+while the entry is being loaded; `Release` / the loader unlock it. -/
+theorem no_return_under_lock : returnsUnderLock = ["sys.CachedLocations.Open: return while cl is locked"] := by decide
+
 /-! ## The hypotheses are satisfiable by non-trivial instances -/
 
 /-- `sysFrame` *is* a frame for the System engine over the toy semantics with a finite TTL and checking on -/
